@@ -635,6 +635,39 @@ func genAuth() (string, error) {
 		}
 		walk(st, true)
 	}
+	// the ed25519 lane: tuples are written into the signature cache only on the branch where the batch
+	// equation held (the fallback closure caches what it verified one by one)
+	ed25519Lane, batchDecision := "", ""
+	cacheOnlyAfterSuccess := false
+	for _, st := range va.Body.List {
+		is, ok := st.(*ast.IfStmt)
+		if !ok || !strings.Contains(g.ExprText(is.Cond), "b.ed25519[idx]") {
+			continue
+		}
+		ed25519Lane = g.StmtText(is)
+		total, inElse := 0, 0
+		ast.Inspect(is, func(nd ast.Node) bool {
+			if c, ok := nd.(*ast.CallExpr); ok && g.ExprText(c.Fun) == "SignatureCache.Set" {
+				total++
+			}
+			if d, ok := nd.(*ast.IfStmt); ok && strings.Contains(g.ExprText(d.Cond), "VerifyBatchOnly") && strings.HasPrefix(g.ExprText(d.Cond), "!") {
+				batchDecision = g.StmtText(d)
+				if d.Else != nil {
+					ast.Inspect(d.Else, func(x ast.Node) bool {
+						if c, ok := x.(*ast.CallExpr); ok && g.ExprText(c.Fun) == "SignatureCache.Set" {
+							inElse++
+						}
+						return true
+					})
+				}
+			}
+			return true
+		})
+		cacheOnlyAfterSuccess = batchDecision != "" && total == inElse && total > 0
+	}
+	emitStr("ed25519LaneSource", "BatchVerifier.verifyAll: the ed25519 block (normalised)", ed25519Lane)
+	emitStr("ed25519BatchDecision", "BatchVerifier.verifyAll: the statement deciding on the batch equation", batchDecision)
+	fmt.Fprintf(&b, "/-- every SignatureCache.Set of the ed25519 block sits in the else-branch of `if !verifier.VerifyBatchOnly(…)` -/\ndef ed25519CacheOnlyAfterSuccess : Bool := %v\n\n", cacheOnlyAfterSuccess)
 	emitList("verifyAllShape", "BatchVerifier.verifyAll: top-level statements (closure and if-bodies elided)", shape)
 	emitStr("verifyAllClosure", "BatchVerifier.verifyAll: body of the one-by-one closure verifyBatch", closure)
 	fmt.Fprintf(&b, "/-- return statements of verifyAll (outside the closure) other than its final one -/\ndef verifyAllEarlyReturns : Nat := %d\n\n", early)
